@@ -1200,6 +1200,16 @@ class Interp:
                     args = tuple(x for _, x in args[1][4])
                 else:
                     args = tuple(args[1:])
+        if 'indirect' in (t.get('callee') or {}) and t.get('func') is not None:
+            # a call through a function pointer whose value on this path is a function item (`helper(T::convert)` opened up)
+            try:
+                f0 = strip(self._operand(st, frame, t['func'], fn))
+            except Exception:
+                f0 = ('unk', '')
+            if f0[0] == 'c' and isinstance(f0[1], tuple) and f0[1] and f0[1][0] == 'fn' and not re.search(r'::(Some|Ok|Err)$', str(f0[1][1])):
+                from facts import strip_generics
+                cdef = str(f0[1][1])
+                name = strip_generics(cdef)
         # call values/effects carry a snapshot of what each reference argument points at
         def snapped(a, depth=0):
             if a[0] == 'ref' and len(a) == 3:
@@ -1273,7 +1283,16 @@ class Interp:
                 elif len(args) > 1:
                     spread = [('field', args[1], str(i)) for i in range(target_fn.arg_count - 1)]
                 bind = [selfarg] + spread
+        negate = False
+        if target_fn is None and name == 'core::cmp::PartialEq::ne' and len(args) == 2 and ((t.get('callee') or {}).get('resolved') or {}).get('trait_default'):
+            # std's provided method: `fn ne(&self, other) -> bool { !self.eq(other) }` with the type's own (local) `eq`
+            eqf = self.facts.fns.get('<%s as core::cmp::PartialEq>::eq' % (t['callee'].get('self_ty') or ''))
+            if eqf is not None and eqf.arg_count == 2 and depth < self.max_depth and self.inline(eqf, depth, callee_name_of_fn(eqf)):
+                target_fn, bind, negate = eqf, list(args), True
+                name = callee_name_of_fn(eqf)
         if target_fn is not None and depth < self.max_depth and (self.user_inline(target_fn, depth, name) if is_twin else self.inline(target_fn, depth, name)):
+            if negate:
+                eff.kind = 'call_inlined'
             if not self.user_inline(target_fn, depth, name):
                 eff.kind = 'call_inlined'      # an extracted helper opened up by the analysis mode: its body's effects follow, the call itself is not an effect
             nf = st.nframes
@@ -1285,7 +1304,7 @@ class Interp:
                 self.npaths += 0
                 if outcome[0] == 'return':
                     st2.effects.append(Effect('inline_exit', name, fn, bb, frame, t, len(st2.decisions)))
-                    yield st2, outcome[1]
+                    yield st2, (_not(outcome[1]) if negate else outcome[1])
                 else:
                     st2._outcome = outcome
                     yield st2, None
@@ -1420,6 +1439,14 @@ def linear(v):
 
 CMP_FLIP = {'Lt': 'Gt', 'Le': 'Ge', 'Gt': 'Lt', 'Ge': 'Le', 'Eq': 'Eq', 'Ne': 'Ne'}
 CMP_NEG = {'Lt': 'Ge', 'Le': 'Gt', 'Gt': 'Le', 'Ge': 'Lt', 'Eq': 'Ne', 'Ne': 'Eq'}
+
+
+def _not(v):
+    if v[0] == 'c' and isinstance(v[1], bool):
+        return ('c', not v[1])
+    if v[0] == 'un' and v[1] == 'Not':
+        return v[2]
+    return ('un', 'Not', v)
 
 
 def as_comparison(v):
